@@ -72,6 +72,10 @@ def shaped_def(rng):
             for a in list(trans[q]):
                 if trans[q][a] == src and rng.random() < 0.5:
                     trans[q][a] = cq
+        # near-clone: one edge of the copy goes into the dead part instead (explicit edge from a kept
+        # state into a dropped one - must behave like a missing edge)
+        if dead and trans[cq] and rng.random() < 0.5:
+            trans[cq][rng.choice(sorted(trans[cq]))] = rng.choice(dead)
     if not partial:
         for q in names:
             for a in sigma:
